@@ -663,7 +663,8 @@ func (hs *clientHandshakeState) establishKeys() error {
 
 	workKey, clientMAC, serverMAC, clientKey, serverKey, clientIV, serverIV :=
 		keysFromMasterSecret(c.vers, hs.suite, hs.masterSecret, hs.hello.random, hs.serverHello.random, hs.suite.macLen, hs.suite.keyLen, hs.suite.ivLen)
-	c.workKey = workKey
+	// 密钥块的各个切片使用完毕后再登记，避免与并发的 Close 置零冲突
+	defer c.setWorkKey(workKey)
 	var clientCipher, serverCipher interface{}
 	var clientHash, serverHash hash.Hash
 	if hs.suite.cipher != nil {
